@@ -37,7 +37,7 @@ Definition mul_ok (p q : rpoly) (impl : option rpoly) : bool :=
   | _, _ => false
   end.
 """
-TARGETS = ["Bridge/BridgeKey.vo", "Props/P_C20.vo"]
+TARGETS = ["Bridge/BridgeKey.vo", "Gen/GenSource.vo", "Bridge/BridgeSrcC20.vo", "Props/P_C20.vo"]
 
 
 def cN(v):
@@ -152,7 +152,8 @@ def run(report, tier, seed):
     except (key_tr.TranslatorError, SyntaxError, OSError) as exc:
         tr_ok = False
         report.notes.append(f"translator failed: {exc}")
-    ok = tr_ok and core.prove(report, TARGETS)
+    from harness.translators import source_tr
+    ok = tr_ok and core.prove_tied(report, TARGETS, [source_tr])
     off = info["offset"] if info else int(numpoly.ndpoly.KEY_OFFSET)
     rng = core.rng_for(seed, "C20")
     cc = core.CoqCases("C20", HEADER, shard=400)
@@ -265,6 +266,41 @@ def run(report, tier, seed):
         for fn in os.listdir(tmpdir):
             os.remove(os.path.join(tmpdir, fn))
         os.rmdir(tmpdir)
+
+    # (d) wrap-around grids: every exponent tuple over {0, 1, 2, m-2, m-1, m} with m**D just above 2**32 (D = 2, 3), all
+    #     in ONE polynomial, through alignment (add / subtract / align_polynomials): any encoding of an exponent row as a
+    #     single 32-bit number with radix max+1 (or a power of two nearby) makes two of these rows collide
+    import itertools
+    n_grid = 0
+    for D, m in ((2, 65536), (2, 65537), (2, 70000), (3, 1625), (3, 1626), (3, 2048)):
+        edge = [0, 1, 2, m - 2, m - 1, m]
+        rows = [t for t in itertools.product(edge, repeat=D)]
+        if D == 3:
+            rows = rng.sample(rows, 90) + [(0, 0, 0), (m, m, m)]
+            rows = list(dict.fromkeys(rows))
+        coefs = [rng.choice([1, 2, 3, 5, 7]) for _ in rows]
+        tp = dict(zip(rows, coefs))
+        names = tuple(f"q{i}" for i in range(D))
+        n_grid += 1
+        try:
+            p = numpoly.polynomial_from_attributes([list(r) for r in rows], coefs, names)
+            for label, got, want in (
+                    ("p + 1", lambda: terms_of(p + 1), ref_add(tp, {(0,) * D: 1})),
+                    ("1 + p (numpy.add)", lambda: terms_of(numpy.add(1, p)), ref_add(tp, {(0,) * D: 1})),
+                    ("p - q0", lambda: terms_of(p - numpoly.symbols("q0")), ref_add(tp, {(1,) + (0,) * (D - 1): -1})),
+                    ("align_polynomials(p, 1)[0]", lambda: terms_of(numpoly.align_polynomials(p, 1)[0]), tp),
+                    ("p + p", lambda: terms_of(p + p), {k: 2 * v for k, v in tp.items()})):
+                g = got()
+                if g != want:
+                    lost = sorted(set(want) - set(g))[:3]
+                    viol.append((f"{label} on the {D}-variable wrap-around grid with m={m} confused monomials: "
+                                 f"{len(g)} terms instead of {len(want)}, e.g. lost or changed {lost}",
+                                 {"kind": "grid", "D": D, "m": m, "op": label, "rows": len(rows)}))
+                    break
+        except Exception as exc:  # noqa: BLE001
+            viol.append((f"alignment on the {D}-variable wrap-around grid with m={m} raised {type(exc).__name__}: {exc}",
+                         {"kind": "grid", "D": D, "m": m}))
+    report.coverage["wrap_around_grids"] = n_grid
 
     failed, errors = cc.run() if tr_ok else ([], [])
     report.coverage.update({
